@@ -20,6 +20,7 @@ EXTENDS Integers, Sequences, FiniteSets, TLC, Json
 CONSTANTS Depth,
           BugGlobalFallback,   \* TRUE: ft_phase_screen draws from the global stream (what the property forbids)
           BugSharedInstance,   \* TRUE: all infinite screens share one module-level generator
+          BugShCoupled,        \* TRUE: the sub-harmonics come from a second generator made from the same integer seed (pre-2981c8d)
           BugCloneShares,      \* TRUE: a deep copy of a screen keeps drawing from the original's generator
           Focus,               \* "all", or "objects": only instance actions (simulation that concentrates on instance isolation)
           Emit
@@ -72,15 +73,18 @@ FtGen(p) ==     \* seed=G : default_rng(G) is G, the user's stream advances
     /\ gen' = gen + 2*NOf(p)*NOf(p)
     /\ UNCHANGED <<glob, obj, nfresh>>
 
-\* ---- ft_sh_phase_screen(p, seed): R = default_rng(seed); phs_hi = ft_phase_screen(.., seed=seed); 3 x (9 + 9) draws from R
-FtShInt(p, s) ==   \* two independent generators, both created from the same integer seed
+\* ---- ft_sh_phase_screen(p, seed): R = default_rng(seed); phs_hi = ft_phase_screen(.., seed=R); 3 x (9 + 9) draws from R
+\* (before fix 2981c8d the nested call was given `seed` itself: a second generator from the same integer, so the sub-harmonics
+\*  re-used deviates 0..54 of the stream the high-frequency screen had drawn from)
+FtShInt(p, s) ==   \* one generator from the integer seed: the nested call draws first, then the sub-harmonics
     /\ Log([a |-> "ftsh", p |-> p, seed |-> s,
-            prov |-> << <<SeedStream(s), 0, 2*NOf(p)*NOf(p)>>, <<SeedStream(s), 0, 54>> >>])
+            prov |-> IF BugShCoupled THEN << <<SeedStream(s), 0, 2*NOf(p)*NOf(p)>>, <<SeedStream(s), 0, 54>> >>
+                     ELSE << <<SeedStream(s), 0, 2*NOf(p)*NOf(p)>>, <<SeedStream(s), 2*NOf(p)*NOf(p), 2*NOf(p)*NOf(p) + 54>> >>])
     /\ UNCHANGED <<glob, gen, obj, nfresh>>
-FtShNone(p) ==     \* two different fresh-entropy generators
+FtShNone(p) ==     \* one fresh-entropy generator for both parts
     /\ Log([a |-> "ftsh", p |-> p, seed |-> -2,
-            prov |-> << <<Fresh(nfresh + 2), 0, 2*NOf(p)*NOf(p)>>, <<Fresh(nfresh + 1), 0, 54>> >>])
-    /\ nfresh' = nfresh + 2
+            prov |-> << <<Fresh(nfresh + 1), 0, 2*NOf(p)*NOf(p)>>, <<Fresh(nfresh + 1), 2*NOf(p)*NOf(p), 2*NOf(p)*NOf(p) + 54>> >>])
+    /\ nfresh' = nfresh + 1
     /\ UNCHANGED <<glob, gen, obj>>
 FtShGen(p) ==      \* one shared stream: the nested call draws first, then the sub-harmonics
     /\ Log([a |-> "ftsh", p |-> p, seed |-> -1,
@@ -159,6 +163,10 @@ Reproducible == \A i, j \in 1..Len(hist) :
 SeedsDiffer == \A i, j \in 1..Len(hist) :
     (i # j /\ hist[i].a \in {"ft", "ftsh"} /\ hist[j].a = hist[i].a /\ hist[i].p = hist[j].p /\ hist[i].seed # -1 /\ hist[j].seed # -1
        /\ (hist[i].seed # hist[j].seed \/ hist[i].seed = -2)) => hist[i].prov # hist[j].prov
+\* within one call no deviate is used twice: the parts of a screen (high-frequency part, sub-harmonics) are independent
+NoDeviateUsedTwice == \A i \in 1..Len(hist) : \A k1, k2 \in 1..Len(hist[i].prov) :
+    (k1 < k2 /\ hist[i].prov[k1][1] = hist[i].prov[k2][1]) =>
+        (hist[i].prov[k1][3] <= hist[i].prov[k2][2] \/ hist[i].prov[k2][3] <= hist[i].prov[k1][2])
 \* seeded generation never reads or advances the global stream
 GlobalUntouched == \A i \in 1..Len(hist) :
     (hist[i].a \in {"ft", "ftsh", "new", "add_row"}) => \A k \in 1..Len(hist[i].prov) : hist[i].prov[k][1][1] # "global"
